@@ -91,6 +91,7 @@ type simListener struct {
 }
 
 type simNet struct {
+	deliveredTo map[string]int // chunks of request bytes delivered per listener host in the current step
 	mu        sync.Mutex
 	listeners map[string]*simListener // addr -> listener
 	conns     []*simConn
@@ -360,6 +361,12 @@ func (n *simNet) releaseLocked(h *half, k int) int {
 			h.eof = true
 		} else {
 			h.buf = append(h.buf, c.b...)
+			if n.deliveredTo != nil {
+				// request-direction bytes handed to the listener side in this step
+				if h.dir == 0 {
+					n.deliveredTo[h.conn.to]++
+				}
+			}
 		}
 		done++
 	}
